@@ -18,16 +18,16 @@ LEVEL_TEXT = ('every sequence of argument classes (trashable file/dir/symlink, n
               'stderr, and each argument must end exactly as when it is run alone on the same initial world')
 LEVEL_NOTE = 'trusted: snapshot classifier; end-of-input at an -i prompt is excluded (covered by C01); permission failures are not modelled (root)'
 RULE = ('sequences of length 1..3 (thorough 1..4) over {file, dir, link, dangling link, missing, dot, dotdot, nonutf8, untrashable, dup, empty string, @name (the last two only in sequences of length <= 2 in the quick tier)} (dup not first) x mode {-, -f, -i all y, '
-        '-i all n, -i alternating, -v, HOME with regex metacharacters}; non-trivial = at least two arguments with different outcomes; distinct = (mode, multiset of classes, exit, outcome vector)')
+        '-i all n, -i alternating y/n, -i alternating y/empty/blank, -v, HOME with regex metacharacters}; non-trivial = at least two arguments with different outcomes; distinct = (mode, multiset of classes, exit, outcome vector)')
 CLASSES = ['file', 'dir', 'link', 'dangling', 'missing', 'dot', 'dotdot', 'nonutf8', 'untrashable', 'dup', 'emptystr', 'atname']
 NEWER = ('emptystr', 'atname')          # quick: only in sequences of length <= 2
-MODES = ['-', '-f', '-iy', '-in', '-ialt', '-v', 'odd-home']
+MODES = ['-', '-f', '-iy', '-in', '-ialt', '-iblank', '-v', 'odd-home']
 B = '/home/u/w'
 PROMPT = re.compile(r"trash-put: trash .*? '(.*?)'\? ", re.S)
 
 
 def dimensions(tier):
-    return {'classes': len(CLASSES), 'max_len': 4 if tier == 'thorough' else 3, 'modes': 7}
+    return {'classes': len(CLASSES), 'max_len': 4 if tier == 'thorough' else 3, 'modes': len(MODES)}
 
 
 def cases(tier):
@@ -111,6 +111,9 @@ def outcomes(before, r, after, args, mode):
                 k = chunk.rfind("'%s'" % a)
                 if k < 0:
                     k = chunk.rfind(a)
+                if k < 0 and any(0xd800 <= ord(ch) <= 0xdfff for ch in a):
+                    # a name that cannot be written as it is may be shown escaped: recognise it by its printable part
+                    k = chunk.rfind(a[:6])
                 if k >= 0 and (best is None or k > best[0]):
                     best = (k, a)
             prompts.append(best[1] if best else None)
@@ -146,6 +149,8 @@ def outcomes(before, r, after, args, mode):
 
 
 def reply_for(mode, k):
+    if mode == '-iblank':
+        return ('y', '', ' ')[k % 3]          # just Enter, or a blank: declined
     return {'-iy': 'y', '-in': 'n'}.get(mode, 'yn'[k % 2])
 
 
